@@ -267,6 +267,8 @@ def run(ctx):
         if prob:
             ctx.violation("C01/stream/" + prob.split(":")[0][:30].replace(" ", "-"), prob, {"defn": g["defn"], "pkts": g["pkts"], "route": list(g["route"])})
     ctx.extra["streams_compared"] = ns
+    if ns < ndefs // 2 and not ctx.violations:
+        ctx.vacuity(f"only {ns} of {ndefs} streams could be compared at stream level")
     pipeline_section(ctx, q)
     for ln, pi, status, exact in col:
         if status == "ok" and len(ln["obs"][pi]["items"]) > 12:
